@@ -261,6 +261,11 @@ pub fn svg(sink: &mut Sink, seed: u64, thorough: bool) {
         let id = sink.id();
         sink.emit(&svg_event(id, &format!("svgsyn:{kind}"), &synthetic(v, kind, seed), &[Call::Margin(kind), Call::Shape(kind % 6), Call::ShapeColor((kind + 2) % 6, COLORS[2].to_vec())]));
     } }
+    // large versions with large margins: coordinates with three digits
+    for (v, m) in [(40usize, 30usize), (33, 100), (21, 55)] {
+        let id = sink.id();
+        sink.emit(&svg_event(id, &format!("svgbig:{v}"), &qr_of(v, seed), &[Call::Margin(m), Call::Shape(v % 6), Call::Image("logo.png".into())]));
+    }
     // image strings
     let qr = qr_of(3, seed);
     for (i, s) in image_pool().iter().enumerate() {
@@ -283,7 +288,7 @@ pub fn frames(sink: &mut Sink, seed: u64, thorough: bool) {
     let mut r = rng(seed, 22);
     let qrs: Vec<QRCode> = (1..=40).map(|v| qr_of(v, seed)).collect();
     for k in 0..3usize {
-        for m in 0..=16usize {
+        for m in (0..=16usize).chain([17usize, 33, 64, 120]) {
             let mut rows = Vec::new();
             let mut kind = "Ok".to_string();
             for v in 1..=40usize {
